@@ -494,6 +494,8 @@ def sampled_cases(ctx, items: list, mesh: dict) -> None:
         opt = {}
         if rng.random() < 0.25 and enc['fill'] == 'attr':
             opt['netcdf'] = True
+            if rng.random() < 0.6:
+                enc['fill_spec'] = rng.choice(['low', 'low', 'neg', 'u4max', 'i2'])
         elif rng.random() < 0.3 and enc['fill'] != 'nan':
             opt['int_dtype'] = rng.choice(['int64', 'uint32'])
         elif enc['fill'] == 'attr':
